@@ -53,7 +53,9 @@ META = {
                   'process for -n k (full strength since the repair of the finding process-teardown-failure made by this '
                   'check; the behaviour before it and the pinned thread behaviour are kept as counterexample theorems).',
     'level_note': 'The laziness monitor monLazy is proved of the model (C11_lazy_monitor) under the decidable hypothesis '
-                  'Bounded inp nTasks (all task names below the monitor\'s parameter; evaluated on every case: hyp:bounded); '
+                  'Bounded inp nTasks (all task names below the monitor\'s parameter; evaluated on every case: hyp:bounded) and '
+                  'NoFailDeliver (no calc task delivers values after a failed execution; the generator of this check never '
+                  'makes such tasks); '
                   'for arbitrary nTasks the statement is false (C11_lazy_monitor_full_counterexample: the parameter is also '
                   'the fuel of the monitor\'s closure; an artefact of the monitor, replayed on the real doit).  '
                   'Trusted: Lean kernel; '
